@@ -12,7 +12,6 @@ package c17
 import (
 	"fmt"
 	"hash/fnv"
-	"runtime/debug"
 	"sort"
 	"strings"
 	"sync"
@@ -128,14 +127,33 @@ func rdelConfigs(spans []rdSpan, seqs []uint64, withNone bool) [][]RDel {
 	return out
 }
 
-func partOneKey(maxLen int) part {
+func menuNames(menu []sym) string {
+	var p []string
+	for _, m := range menu {
+		n := m.kind.String()
+		if m.kind == KDelSized {
+			switch m.v {
+			case "3":
+				n += "(size right)"
+			case "":
+				n += "(no size)"
+			default:
+				n += "(size wrong)"
+			}
+		}
+		p = append(p, n)
+	}
+	return "{" + strings.Join(p, ",") + "}"
+}
+
+func partOneKey(minLen, maxLen int, menu []sym) part {
 	return part{
-		name: fmt.Sprintf("one-key/%d", maxLen),
-		n:    denseCount(len(menu8), 1, maxLen),
+		name: fmt.Sprintf("one-key/%d-%d/%d-kinds", minLen, maxLen, len(menu)),
+		n:    denseCount(len(menu), minLen, maxLen),
 		gen: func(i int) *stream {
-			return newStream("one-key", densePoints(i, "b", menu8, 1, maxLen), nil, nil)
+			return newStream("one-key", densePoints(i, "b", menu, minLen, maxLen), nil, nil)
 		},
-		desc: fmt.Sprintf("user key b, every sequence of 1..%d entries at seqnums 10,20,.. over {SET,DEL,MERGE,SINGLEDEL,SETWITHDEL,DELSIZED(size right),DELSIZED(size wrong),DELSIZED(no size)}", maxLen),
+		desc: fmt.Sprintf("user key b, every sequence of %d..%d entries at seqnums 10,20,.. over %s", minLen, maxLen, menuNames(menu)),
 	}
 }
 
@@ -175,7 +193,7 @@ func partOneKeyRangeDels(maxLen int, menu []sym, spans []rdSpan, seqs []uint64) 
 	rc := rdelConfigs(spans, seqs, false)
 	np := denseCount(len(menu), 0, maxLen)
 	return part{
-		name: fmt.Sprintf("one-key+rangedels/%d", maxLen),
+		name: fmt.Sprintf("one-key+rangedels/%d/%d-spans", maxLen, len(spans)),
 		n:    np * len(rc),
 		gen: func(i int) *stream {
 			return newStream("one-key+rangedels", densePoints(i%np, "b", menu, 0, maxLen), rc[i/np], nil)
@@ -230,7 +248,7 @@ func partMixed(maxLen int, menu []sym) part {
 	np := denseCount(len(menu), 0, maxLen)
 	nrk := len(rkb) * len(rkSets)
 	return part{
-		name: fmt.Sprintf("points+rangedel+rangekey/%d", maxLen),
+		name: fmt.Sprintf("points+rangedel+rangekey/%d/%d-kinds", maxLen, len(menu)),
 		n:    np * len(rc) * nrk,
 		gen: func(i int) *stream {
 			pi := i % np
@@ -431,6 +449,8 @@ type local struct {
 	feat         map[uint32]int64
 	states       map[uint64]struct{}
 	nontrivial   bool
+	sample       *Case
+	vio          map[string]int64
 }
 
 type reporter struct {
@@ -474,14 +494,17 @@ func runStream(c *vlib.Ctx, st *stream, rep *reporter, loc *local) {
 				loc.evals++
 				loc.trans += int64(o.steps) + 1
 				if f := check(st, &cfg, o, false); f != nil {
-					// re-execute before reporting
-					o2 := runReal(st, &cfg)
-					if f2 := check(st, &cfg, o2, false); f2 == nil || f2.class != f.class {
-						c.Incomplete("violation did not reproduce: " + f.desc)
-						continue
+					if loc.vio == nil {
+						loc.vio = map[string]int64{}
 					}
-					c.Outcome("VIOLATION " + f.class)
+					loc.vio[f.class]++
 					if rep.want(f.class) {
+						// re-execute before reporting
+						o2 := runReal(st, &cfg)
+						if f2 := check(st, &cfg, o2, false); f2 == nil || f2.class != f.class {
+							c.Incomplete("violation did not reproduce: " + f.desc)
+							continue
+						}
 						c.Violation(f.class, fmt.Sprintf("input {%s} %s: %s; output %s", st, &cfg, f.desc, o), st.mkCase(&cfg))
 					}
 					continue
@@ -491,6 +514,10 @@ func runStream(c *vlib.Ctx, st *stream, rep *reporter, loc *local) {
 				loc.states[hashOutput(o)] = struct{}{}
 				if m&(1<<9) != 0 && m&(1|1<<7|1<<8) != 0 {
 					loc.nontrivial = true
+					if loc.sample == nil && len(snaps) >= 2 {
+						cs := st.mkCase(&cfg)
+						loc.sample = &cs
+					}
 				}
 			}
 		}
@@ -518,7 +545,6 @@ func replay(c *vlib.Ctx, cs Case) {
 }
 
 func TestCheck(t *testing.T) {
-	debug.SetGCPercent(800)
 	vlib.Main(t, "C17", func(c *vlib.Ctx) {
 		if c.ReplayPath() != "" {
 			var cs Case
@@ -533,20 +559,24 @@ func TestCheck(t *testing.T) {
 		var parts []part
 		if !c.Thorough() {
 			parts = []part{
-				partOneKey(4),
+				partOneKey(1, 4, menu8),
+				partOneKey(5, 5, menu5),
 				partTwoKeys(menu5, 2),
 				partOneKeyRangeDels(2, menu5, rdSpans1, []uint64{5, 10, 15, 20, 25}),
+				partOneKeyRangeDels(3, menu5, rdSpans1[:3], []uint64{5, 15, 20, 25}),
 				partRangeKeys(3),
 				partMixed(1, menu5),
 				partTwoKeysRangeDels(menu5[:4], rdSpans2[:3], []uint64{15, 25}),
 			}
 		} else {
 			parts = []part{
-				partOneKey(5),
+				partOneKey(1, 5, menu8),
+				partOneKey(6, 6, menu5),
 				partTwoKeys(menu6, 3),
 				partOneKeyRangeDels(3, menu8, rdSpans1, []uint64{5, 10, 15, 20, 25, 30, 35}),
 				partRangeKeys(4),
 				partMixed(2, menu8),
+				partMixed(3, menu5),
 				partTwoKeysRangeDels(menu5, rdSpans2, []uint64{15, 25, 35}),
 			}
 		}
@@ -576,6 +606,9 @@ func TestCheck(t *testing.T) {
 				for m, n := range loc.feat {
 					c.OutcomeN(featureLabel(m), n)
 				}
+				for cl, n := range loc.vio {
+					c.OutcomeN("VIOLATION "+cl, n)
+				}
 				for h := range loc.states {
 					c.State(h)
 				}
@@ -586,9 +619,8 @@ func TestCheck(t *testing.T) {
 				streams++
 				cases += loc.evals
 				mu.Unlock()
-				if i%4999 == 0 {
-					cfg := Cfg{Snapshots: []uint64{st.seqs[len(st.seqs)-1]}, Elision: "none"}
-					c.Sample(st.mkCase(&cfg))
+				if i%997 == 0 && loc.sample != nil {
+					c.Sample(*loc.sample)
 				}
 			})
 			notes = append(notes, fmt.Sprintf("%s: %s. %d of %d indices done: %d streams run under %d (stream, snapshot list, elision, bottommost) cases, %d streams excluded because a SINGLEDEL violates the SingleDelete contract, %d empty", p.name, p.desc, done, p.n, streams, cases, invalid, skipped))
